@@ -6,7 +6,7 @@
 (* A pointer text is a sequence of code points; a parsed pointer is a      *)
 (* sequence of decoded reference tokens (each a sequence of code points).  *)
 (***************************************************************************)
-EXTENDS Integers, Sequences, FiniteSets
+EXTENDS Integers, Sequences, FiniteSets, IndexRule
 
 SLASH == 47
 TILDE == 126
@@ -83,22 +83,4 @@ ParseIndex(t) ==
   ELSE IF Len(t) >= 2 /\ t[1] = PLUS /\ AllDigits(Tail(t)) THEN [k |-> "odd"]
   ELSE [k |-> "nan"]
 
-(***************************************************************************)
-(* The dialect's index rule.  n = current length.  Result is a 0-based     *)
-(* position, or -1 for "no such position".                                 *)
-(*   get/replace/remove:  0..n-1;  negative i means n+i when enabled       *)
-(*   add (insert before): 0..n;    negative i means n+1+i when enabled,    *)
-(*                        so that -1 appends (pinned by the test suite)    *)
-(***************************************************************************)
-NormIndex(i, n, neg, forAdd) ==
-  LET m == IF forAdd THEN n + 1 ELSE n IN
-  IF i >= m THEN -1
-  ELSE IF i >= 0 THEN i
-  ELSE IF ~neg \/ i < 0 - m THEN -1
-  ELSE i + m
-
-\* lemma checked by TLC over a range and by Apalache for all integers (IndexLemmas.tla)
-NormIndexInRange(i, n, neg, forAdd) ==
-  LET r == NormIndex(i, n, neg, forAdd) IN
-  r = -1 \/ (r >= 0 /\ r < (IF forAdd THEN n + 1 ELSE n))
 =============================================================================
